@@ -1,8 +1,9 @@
 """C20 — Rasterisation marks exactly the bins a geometry covers, on the template's axes."""
 import itertools
+import json
 from fractions import Fraction
 
-from ..core import Op
+from ..core import Op, jkey
 from ..rat import rat, frac
 from ..axis_common import guarded, fl, is_err, rats
 from .. import gen_geom
@@ -12,32 +13,52 @@ LEAN_MODULE = "Proofs.C20"
 _T = "SE.Proofs.C20."
 THEOREMS = [_T + n for n in [
     "C20_box_bins", "C20_bin_of_start", "C20_bins_by_coordinates", "C20_cell_value", "C20_last_wins",
-    "C20_untouched_fill", "C20_axes", "C20_values_length_rejected", "C20_scalar_value", "C20_box_centre_rule"]]
-LEVEL_TEXT = ("Lean theorems over the index-space model of rasterize: a bounding box covers exactly the bins from the one "
-              "containing its start (inclusive) to the one containing its end (exclusive) on each axis (in bin indices and "
-              "in terms of the axis coordinates, through C16's lookup with clamping), every cell holds the value of the "
-              "last geometry covering it or the fill value, the result is labelled (time, frequency) with the template's "
-              "coordinates and has nt x nf cells for either dimension order, a value list of the wrong length is rejected. "
-              "The model is tied to the code by exact differential runs (templates 1-8 x 1-8, both orders, dyadic and "
-              "decimal spacings, 0-4 boxes, values, fills, dtypes, all_touched both ways) and rasterio's box rule is "
-              "monitored on the library on every run.")
-LEVEL_NOTE = ("Unmodelled: rasterio / GDAL scan conversion. For integer-cornered boxes its rule (cell burnt iff its centre "
-              "lies in the box, all_touched adds nothing) is a run-time-monitored contract; for general polygons, lines and "
-              "points only the property's monitors run on the real output (all_touched is a superset, later geometries "
-              "overwrite, untouched = fill, centre-in-polygon for cells whose centre is off the boundary, evaluated in Lean "
-              "over exact rationals). Model tied to the code by generator-bounded correspondence only.")
-TECHNIQUE = "Lean 4 proof over index-space model; exact differential correspondence; library contract and polygon monitors"
-RULE = ("templates of 1-8 x 1-8 bins in both dimension orders, dyadic and decimal spacings, lists of 0-4 box-like "
-        "geometries with ends on, between and beyond coordinates; non-trivial = the implementation returned a raster "
+    "C20_untouched_fill", "C20_axes", "C20_values_length_rejected", "C20_scalar_value", "C20_box_centre_rule",
+    "C20_general_cell", "C20_general_axes", "C20_general_values", "C20_general_box", "C20_point_cell",
+    "C20_polygon_centre_rule", "C20_all_touched_adds", "C20_defaults", "C20_clamp_index",
+    "C20_box_cells_by_coordinates"]]
+LEVEL_TEXT = ("Lean theorems over the index-space model of rasterize. Box model: a bounding box / time interval covers exactly "
+              "the bins from the one containing its start (inclusive) to the one containing its end (exclusive) on each "
+              "axis, in bin indices and end to end in terms of the template's coordinates (through C16's lookup with "
+              "clamping); every cell holds the value of the last geometry covering it or the fill value; the result is "
+              "labelled (time, frequency) with the template's coordinates and has nt x nf cells for either dimension "
+              "order; a value list of the wrong length is rejected. General model (all nine geometry types): the "
+              "index-space image handed to rasterio is modelled per type and rasterio is a parameter; for any rasteriser "
+              "the same cell / axes / values theorems hold, under the box rule it coincides with the box model, under the "
+              "point rule a Point marks exactly its bin, under the centre rule a polygon's cell holds its value iff the "
+              "centre is inside the polygon mapped to bin indices, under the superset contract all_touched only adds "
+              "cells. Ties: signature defaults and MAX_FREQUENCY re-extracted as obligations, the clamped lookup of "
+              "get_coord_index proved equal to the model for all inputs by symbolic trace, exact differential runs of "
+              "both models (templates 1-8 x 1-8, both orders, extra dimensions, regular and irregular axes, all "
+              "geometry types, integer and fractional values, fills, dtypes, defaults, all_touched both ways) with "
+              "rasterio's answers for the model's images as the rasteriser; box and point rules monitored exhaustively "
+              "on the library every run, centre rule and all_touched superset on every generated shape.")
+LEVEL_NOTE = ("Unmodelled: rasterio / GDAL scan conversion (a parameter of the general model; its answers for the model's "
+              "index-space images are observed on the library in every differential case). For integer-cornered boxes and "
+              "points its rule is a run-time-monitored contract evaluated exhaustively on a small raster; for general "
+              "polygons the centre rule (cells whose centre is off the boundary) and for all non-line shapes the "
+              "all_touched superset are monitored on every generated shape; line burning is not characterised (known "
+              "finding C20-K1). shapely.transform / geometry_to_shapely and xarray are tied by correspondence only; the "
+              "straight-line part of get_coord_index by symbolic trace with pandas' slice bound as a symbol.")
+TECHNIQUE = ("Lean 4 proof over index-space model with the rasteriser as a parameter; table and symbolic-trace "
+             "obligations; exact differential correspondence; library contracts and polygon monitors")
+RULE = ("templates of 1-8 x 1-8 bins in both dimension orders (optionally with a third dimension), dyadic, decimal and "
+        "irregular spacings, lists of 0-4 geometries (box-like for the box model, all nine types for the general model) "
+        "with ends on, between and beyond coordinates; non-trivial = the implementation returned a raster "
         "with at least one burnt cell; distinct = distinct (operation, input)")
 TRUSTED = ["rasterio.features.rasterize (box rule monitored as a contract on every run), shapely.transform, "
            "xarray DataArray construction"]
 ASSUMPTIONS = ["rasterio burns an integer-cornered box into exactly the cells whose centre it contains, with or without "
                "all_touched (contract `rasterio-box-rule`, evaluated exhaustively on a 4 x 5 raster in this run)",
-               "GDAL fills polygons by the even-odd rule on cell centres (contract of the polygon monitor)"]
-NOT_COMPARED = ["error messages (only the error class)", "attributes of the result",
-                "cells of non-box geometries (monitors only)",
-                "cells whose centre lies exactly on the boundary of the index-space polygon"]
+               "rasterio burns a point with integer coordinates into exactly the cell of that index (contract "
+               "`rasterio-point-rule`, evaluated exhaustively on a 4 x 3 raster in this run)",
+               "GDAL fills polygons by the even-odd rule on cell centres (contracts `rasterio-centre-rule` and the polygon "
+               "monitor, evaluated on every generated polygon)",
+               "burning a list of shapes equals burning them one at a time in list order (implied by the exact comparison "
+               "of the general model, which folds rasterio's single-shape answers)"]
+NOT_COMPARED = ["error messages (only the error class)", "attributes and name of the result",
+                "which cells GDAL burns for a given index-space shape (observed on rasterio, not modelled; contracts only)",
+                "cells whose centre lies exactly on the boundary of the index-space polygon (centre-rule contract)"]
 
 LINE_TYPES = ("LineString", "MultiLineString")
 DTYPES = ["float32", "float64", "int32", "int16", "uint8"]
@@ -53,38 +74,71 @@ def _template(inp):
     tv = arrays.create_time_dim_from_array(t)
     fv = arrays.create_frequency_dim_from_array(fr)
     rs = np.random.RandomState(inp.get("contents", 0))
-    if inp["time_first"]:
-        data = rs.uniform(-5, 5, size=(len(t), len(fr)))
-        dims = ("time", "frequency")
-    else:
-        data = rs.uniform(-5, 5, size=(len(fr), len(t)))
-        dims = ("frequency", "time")
+    dims = ["time", "frequency"] if inp["time_first"] else ["frequency", "time"]
+    extra = inp.get("extra_dim")          # position of a third dimension ("channel", 2 entries), or None
+    if extra is not None:
+        dims.insert(extra, "channel")
+    size = {"time": len(t), "frequency": len(fr), "channel": 2}
+    data = rs.uniform(-5, 5, size=tuple(size[d] for d in dims))
     if inp.get("contents", 0) == 0:
         data = np.zeros_like(data)
-    return xr.DataArray(data, dims=dims, coords={"time": tv, "frequency": fv})
+    return xr.DataArray(data, dims=tuple(dims), coords={"time": tv, "frequency": fv})
+
+
+def _num(x):
+    """a value / fill of the request: ints stay ints, rational strings become floats"""
+    return x if isinstance(x, int) else float(frac(x))
 
 
 def _canon(r, inp):
     import numpy as np
-    dt = inp.get("dtype", "float32")
+    dt = inp.get("dtype") or "float32"
     if str(r.dtype) != dt:
         return {"raise": f"crash:dtype-{r.dtype}"}
     v = np.asarray(r.values)
-    if v.ndim != 2 or not np.all(np.equal(np.mod(v, 1), 0)):
-        return {"raise": "crash:not-a-2d-integer-raster"}
+    if v.ndim != 2 or not np.all(np.isfinite(v)):
+        return {"raise": "crash:not-a-finite-2d-raster"}
     return {"val": {"dims": list(r.dims), "time": [rat(float(c)) for c in r.coords["time"].values],
                     "freq": [rat(float(c)) for c in r.coords["frequency"].values],
-                    "grid": [[int(x) for x in row] for row in v]}}
+                    "grid": [[rat(float(x)) for x in row] for row in v]}}
+
+
+def _dtype_arg(inp):
+    import numpy as np
+    dt = inp.get("dtype") or "float32"
+    how = inp.get("dtype_as", "str")
+    return {"str": dt, "np": np.dtype(dt), "type": np.dtype(dt).type}[how]
+
+
+def _values_arg(inp, vals):
+    import numpy as np
+    if isinstance(vals, list):
+        vs = [_num(v) for v in vals]
+        if inp.get("values_np"):
+            vs = [np.float64(v) if isinstance(v, float) else np.int64(v) for v in vs]
+        return tuple(vs) if inp.get("values_tuple") else vs
+    v = _num(vals)
+    if inp.get("values_np"):
+        v = np.float64(v) if isinstance(v, float) else np.int64(v)
+    return v
 
 
 def _call(inp, geoms=None, all_touched=None, values=None):
+    """the real call; keys that are absent / None in the request are left to the signature's defaults"""
     from soundevent.geometry import rasterize
     gs = [gen_geom.to_data(g) for g in (inp["geoms"] if geoms is None else geoms)]
-    vals = inp["values"] if values is None else values
-    if inp.get("values_tuple") and isinstance(vals, list):
-        vals = tuple(vals)
-    return rasterize(gs, _template(inp), values=vals, fill=inp["fill"], dtype=inp.get("dtype", "float32"),
-                     all_touched=inp["all_touched"] if all_touched is None else all_touched)
+    kw = {}
+    vals = inp.get("values") if values is None else values
+    if vals is not None:
+        kw["values"] = _values_arg(inp, vals)
+    if inp.get("fill") is not None:
+        kw["fill"] = _num(inp["fill"])
+    if inp.get("dtype") is not None:
+        kw["dtype"] = _dtype_arg(inp)
+    at = inp.get("all_touched") if all_touched is None else all_touched
+    if at is not None:
+        kw["all_touched"] = at
+    return rasterize(gs, _template(inp), **kw)
 
 
 @guarded
@@ -94,7 +148,7 @@ def _impl_rasterize(inp):
 
 def _holds_valid_request(ctx, inp, out):
     """a request whose value list fits must yield a raster, whatever the template's dimension order"""
-    vals = inp["values"]
+    vals = inp.get("values")
     if isinstance(vals, list) and len(vals) != len(inp["geoms"]):
         return None if is_err(out) and out["raise"] == "invalid" else "a value list of the wrong length was accepted"
     if is_err(out):
@@ -103,46 +157,32 @@ def _holds_valid_request(ctx, inp, out):
 
 
 def _nontrivial(inp, out):
-    return (not is_err(out)) and any(x != inp["fill"] for row in out["val"]["grid"] for x in row)
+    fill = frac(inp["fill"]) if inp.get("fill") is not None else 0
+    return (not is_err(out)) and any(frac(x) != fill for row in out["val"]["grid"] for x in row)
 
 
 # ---- monitor for general geometries: the real code only
 @guarded
 def _impl_monitor(inp):
-    from soundevent.arrays import get_coord_index
-    from soundevent.geometry import geometry_to_shapely
-    import shapely
     full = {}
     singles = {}
     for at in (False, True):
         o = _canon(_call(inp, all_touched=at), inp)
         if is_err(o):
             return o
-        full[at] = o["val"]["grid"]
+        full[at] = _igrid(o["val"]["grid"])
         singles[at] = []
         for g, v in zip(inp["geoms"], inp["values"]):
             o = _canon(_call(inp, geoms=[g], values=[v], all_touched=at), inp)
             if is_err(o):
                 return o
-            singles[at].append(o["val"]["grid"])
-    # index-space rings of the polygonal geometries (what rasterize hands to rasterio)
-    tmpl = _template(inp)
-    rings = []
-    for g in inp["geoms"]:
-        if g["type"] not in ("Polygon", "MultiPolygon", "BoundingBox", "TimeInterval"):
-            rings.append(None)
-            continue
-        sh = geometry_to_shapely(gen_geom.to_data(g))
-        polys = list(sh.geoms) if sh.geom_type == "MultiPolygon" else [sh]
-        rr = []
-        for p in polys:
-            for ring in [p.exterior] + list(p.interiors):
-                rr.append([[int(get_coord_index(tmpl, "time", x, raise_error=False)),
-                            int(get_coord_index(tmpl, "frequency", y, raise_error=False))]
-                           for x, y in ring.coords])
-        rings.append(rr)
+            singles[at].append(_igrid(o["val"]["grid"]))
     return {"val": {"full": {"plain": full[False], "touched": full[True]},
-                    "singles": {"plain": singles[False], "touched": singles[True]}, "rings": rings}}
+                    "singles": {"plain": singles[False], "touched": singles[True]}}}
+
+
+def _igrid(g):
+    return [[int(frac(x)) if frac(x).denominator == 1 else x for x in row] for row in g]
 
 
 def _overlay(singles, fill, nx, ny):
@@ -178,9 +218,13 @@ def _holds_monitor(ctx, inp, out):
                 line_msg = line_msg or msg
             else:
                 return msg
-    for k, rr in enumerate(v["rings"]):
-        if rr is None:
+    # index-space rings of the polygonal geometries: the model's image (what rasterize hands to rasterio)
+    img = ctx.model("index_image", {"time": inp["time"], "freq": inp["freq"], "time_first": inp["time_first"],
+                                    "geoms": inp["geoms"], "all_touched": False})
+    for k, sh in enumerate(img["shapes"]):
+        if sh["type"] not in POLY_SHAPES:
             continue
+        rr = _shape_rings(sh)
         # all_touched=True burns every cell through whose interior the boundary passes
         touched = v["singles"]["touched"][k]
         for ring in rr:
@@ -204,6 +248,100 @@ def _holds_monitor(ctx, inp, out):
     return line_msg
 
 
+# ---- the general model: every geometry type, rasterio as the rasteriser parameter
+POLY_SHAPES = ("Polygon", "MultiPolygon")
+LINE_SHAPES = ("LineString", "MultiLineString")
+_ORACLE = {}
+
+
+def _oracle(shape, all_touched, nx, ny):
+    """rasterio's answer for one index-space shape of the model on an nx x ny raster: mask[i][j]"""
+    import numpy as np
+    from rasterio import features
+    key = (jkey(shape), all_touched, nx, ny)
+    if key not in _ORACLE:
+        if len(_ORACLE) > 20000:
+            _ORACLE.clear()
+        r = features.rasterize([(shape, 1)], (ny, nx), fill=0, all_touched=all_touched, dtype="uint8")
+        _ORACLE[key] = [[bool(x) for x in row] for row in np.asarray(r).T]
+    return _ORACLE[key]
+
+
+def _shape_rings(shape):
+    if shape["type"] == "Polygon":
+        return shape["coordinates"]
+    return [r for poly in shape["coordinates"] for r in poly]
+
+
+@guarded
+def _impl_general(inp):
+    out = _canon(_call(inp), inp)
+    if inp.get("twice") and not is_err(out):
+        again = _canon(_call(inp), inp)         # the result is a function of the request (no carried state)
+        if again != out:
+            return {"raise": "crash:second-call-differs"}
+    return out
+
+
+def _general_model(ctx, inp):
+    """model side: the model's images -> rasterio's cells for them -> the model's raster"""
+    nx, ny = len(inp["time"]), len(inp["freq"])
+    img = ctx.model("index_image", {"time": inp["time"], "freq": inp["freq"], "time_first": inp["time_first"],
+                                    "geoms": inp["geoms"], "all_touched": inp.get("all_touched")})
+    at = img["all_touched"]
+    masks = [_oracle(sh, at, nx, ny) for sh in img["shapes"]]
+    req = {"time": inp["time"], "freq": inp["freq"], "time_first": inp["time_first"], "n": len(inp["geoms"]),
+           "masks": masks, "values": inp.get("values"), "fill": inp.get("fill")}
+    return img, masks, ctx.model("rasterize_masks", req)
+
+
+def _holds_general(ctx, inp, out):
+    msg = _holds_valid_request(ctx, inp, out)
+    if msg:
+        return msg
+    nx, ny = len(inp["time"]), len(inp["freq"])
+    img, masks, mo = _general_model(ctx, inp)
+    # contracts of the rasteriser the theorems assume, on the shapes of this case
+    for k, (g, sh) in enumerate(zip(inp["geoms"], img["shapes"])):
+        if sh["type"] in LINE_SHAPES:
+            continue
+        plain, touched = _oracle(sh, False, nx, ny), _oracle(sh, True, nx, ny)
+        ok = all(touched[i][j] or not plain[i][j] for i in range(nx) for j in range(ny))
+        ctx.contract("rasterio-touched-superset", ok, {"shape": sh, "raster": [nx, ny]}, plain,
+                     "rasterio's all_touched cells do not include its plain cells for a non-line shape")
+        if sh["type"] in POLY_SHAPES:
+            rings = [[[str(x), str(y)] for x, y in r] for r in _shape_rings(sh)]
+            bad = ctx.model("centre_rule", {"nx": nx, "ny": ny, "rings": rings, "burnt": plain})
+            ctx.contract("rasterio-centre-rule", not bad, {"shape": sh, "raster": [nx, ny]}, plain,
+                         "rasterio does not burn exactly the cells whose centre lies inside the polygon")
+    a = dict(out)
+    a.pop("trace", None)
+    if a == mo:
+        return None
+    if is_err(a) or is_err(mo):
+        return "rasterize %s but the model %s" % ("raised " + a["raise"] if is_err(a) else "returned a raster",
+                                                   "raises " + mo["raise"] if is_err(mo) else "returns a raster")
+    av, mv = a["val"], mo["val"]
+    for key, what in (("dims", "dimension order"), ("time", "time coordinates"), ("freq", "frequency coordinates")):
+        if av[key] != mv[key]:
+            return f"the {what} of the result are not the template's"
+    for i in range(max(len(av["grid"]), len(mv["grid"]))):
+        ra = av["grid"][i] if i < len(av["grid"]) else None
+        rm = mv["grid"][i] if i < len(mv["grid"]) else None
+        if ra != rm:
+            if ra is None or rm is None or len(ra) != len(rm):
+                return f"the raster is not {nx} x {ny}"
+            j = next(j for j in range(len(ra)) if ra[j] != rm[j])
+            owners = [k for k, m in enumerate(masks) if m[i][j]]
+            return (f"cell ({i}, {j}) holds {ra[j]}; the geometries whose index-space image covers it are {owners}, "
+                    f"so it must hold {rm[j]}")
+    return "implementation and model disagree"
+
+
+def _nontrivial_general(inp, out):
+    return _nontrivial(inp, out)
+
+
 def _match_line_all_touched(failure, m):
     """known finding: only the superset statement, only for a LineString / MultiLineString geometry"""
     import re
@@ -224,12 +362,14 @@ def _to_model(inp):
 
 OPS = {
     "rasterize": Op("rasterize", _impl_rasterize, to_model=_to_model, nontrivial=_nontrivial, holds=_holds_valid_request),
+    "rasterize_all": Op("rasterize_all", _impl_general, holds=_holds_general, model_op="noop", to_model=lambda inp: {},
+                        compare=lambda inp, io, mo: None, nontrivial=_nontrivial_general),
     "raster_monitor": Op("raster_monitor", _impl_monitor, holds=_holds_monitor, model_op="noop",
                          to_model=lambda inp: {}, compare=lambda inp, io, mo: None, mode="tolerance"),
 }
 
 
-# ------------------------------------------------------------------ the library contract
+# ------------------------------------------------------------------ the library contracts
 def _rasterio_contract(ctx):
     import numpy as np
     from rasterio import features
@@ -239,12 +379,139 @@ def _rasterio_contract(ctx):
              for y0, y1 in itertools.combinations_with_replacement(range(ny + 1), 2)]
     expected = ctx.model_many("box_rule", [{"nx": nx, "ny": ny, "box": list(b)} for b in boxes])
     for b, exp in zip(boxes, expected):
+        exp = [[int(frac(x)) for x in row] for row in exp]
+        x0, y0, x1, y1 = b
+        # the ring shapely's `box` makes, as the mapping the general model hands to the rasteriser
+        ring = {"type": "Polygon", "coordinates": [[[x1, y0], [x1, y1], [x0, y1], [x0, y0], [x1, y0]]]}
         for at in (False, True):
             r = features.rasterize([(geometry.box(*b), 1)], (ny, nx), fill=0, all_touched=at, dtype="int32")
             got = [[int(x) for x in row] for row in np.asarray(r).T]
-            ctx.contract("rasterio-box-rule", got == exp, {"box": list(b), "all_touched": at, "raster": [nx, ny]}, got,
-                         "rasterio does not burn an integer-cornered box into exactly the cells whose centre it contains")
+            got2 = [[int(x) for x in row] for row in _oracle(ring, at, nx, ny)]
+            ctx.contract("rasterio-box-rule", got == exp and got2 == exp, {"box": list(b), "all_touched": at, "raster": [nx, ny]},
+                         got, "rasterio does not burn an integer-cornered box into exactly the cells whose centre it contains")
     ctx.exhaustive["rasterio-box-rule"] = f"all {len(boxes)} integer-cornered boxes of a {nx} x {ny} raster, all_touched both ways"
+
+
+def _point_contract(ctx):
+    """PointRule of the general model: a point with integer coordinates burns exactly the cell of that index"""
+    nx, ny = 4, 3
+    n = 0
+    for x in range(nx + 2):
+        for y in range(ny + 2):
+            exp = [[(i == x and j == y) for j in range(ny)] for i in range(nx)]
+            for at in (False, True):
+                got = _oracle({"type": "Point", "coordinates": [x, y]}, at, nx, ny)
+                got2 = _oracle({"type": "MultiPoint", "coordinates": [[x, y]]}, at, nx, ny)
+                n += 1
+                ctx.contract("rasterio-point-rule", got == exp and got2 == exp,
+                             {"point": [x, y], "all_touched": at, "raster": [nx, ny]}, got,
+                             "rasterio does not burn an integer point into exactly the cell of that index")
+    ctx.exhaustive["rasterio-point-rule"] = f"all {n // 2} integer points in and just outside a {nx} x {ny} raster, all_touched both ways"
+
+
+# ------------------------------------------------------------------ ties 1 and 1b
+def _tables(ctx):
+    """Tie 1: the constants the model states are re-extracted from the imported modules"""
+    import inspect
+    import numpy as np
+    from .. import symtrace as st
+    from soundevent import data
+    import soundevent.geometry as geo
+    fn = getattr(geo, "rasterize", None)
+    try:
+        P = inspect.signature(fn).parameters
+        d = {k: P[k].default for k in ("values", "fill", "dtype", "xdim", "ydim", "all_touched")}
+        ok = (not isinstance(d["values"], (list, tuple, bool)) and isinstance(d["all_touched"], bool)
+              and np.dtype(d["dtype"]) == np.dtype("float32"))
+        src = (f"theorem extracted_rasterize_defaults : SE.Raster.defaultValue = {st.lit(d['values'])} ∧ "
+               f"SE.Raster.defaultFill = {st.lit(d['fill'])} ∧ "
+               f"SE.Raster.defaultAllTouched = {'true' if d['all_touched'] else 'false'} ∧ "
+               f"SE.Raster.defaultXDim = {json.dumps(str(d['xdim']))} ∧ SE.Raster.defaultYDim = {json.dumps(str(d['ydim']))} := by\n"
+               "  decide +kernel\n")
+        if not ok:
+            raise ValueError(f"defaults not of the modelled kind: {d!r}")
+        ctx.obligation("rasterize_defaults", src, {"table": "rasterize signature defaults", "value": repr(d)[:200]})
+    except Exception as e:  # noqa: BLE001 - the signature changed shape: the tie is not re-established
+        ctx.pre_failed.append("rasterize_defaults")
+        ctx.fail("obligation", "rasterize_defaults", detail=f"defaults of rasterize could not be extracted: {e!r}")
+    m = getattr(data, "MAX_FREQUENCY", None)
+    if isinstance(m, bool) or not isinstance(m, (int, float)) or m != m or m in (float("inf"), float("-inf")):
+        ctx.pre_failed.append("MAX_FREQUENCY")
+        ctx.fail("obligation", "MAX_FREQUENCY", detail="soundevent.data.MAX_FREQUENCY is missing or not a finite number")
+    else:
+        ctx.obligation("MAX_FREQUENCY", f"theorem extracted_max_frequency : {st.lit(m)} = SE.MAXF := by decide +kernel\n",
+                       {"table": "MAX_FREQUENCY", "value": str(m)})
+
+
+def _symbolic(ctx):
+    """Tie 1b: get_coord_index executed on symbols (axis range, axis size, pandas' right slice bound)"""
+    from ..symtrace import Sym, Untraceable
+    from soundevent import arrays
+    V = ["lo", "hi", "v", "n", "sb"]
+    lo, hi, v, n, sb = (Sym.var(x) for x in V)
+
+    class _Values:                      # `.values` / numpy view of the coordinates: only the extremes are known
+        def min(self, *a, **k): return lo
+        def max(self, *a, **k): return hi
+        def __getitem__(self, k):
+            if k == 0: return lo
+            if k == -1: return hi
+            raise Untraceable("coordinate values read one by one")
+        def __len__(self): raise Untraceable("length of a symbolic axis")
+
+    class _Index(_Values):              # pandas index of the dimension
+        values = _Values()
+        size = n
+        def get_slice_bound(self, label, side, *a, **k):
+            if side != "right" or label is not v: raise Untraceable("unexpected slice bound request")
+            return sb
+        def searchsorted(self, value, side="left", *a, **k):
+            if side != "right" or value is not v: raise Untraceable("unexpected searchsorted request")
+            return sb
+        def to_numpy(self): return _Values()
+
+    class _Map:                          # mapping dimension name -> thing, for any name
+        def __init__(self, x): self.x = x
+        def __getitem__(self, k): return self.x
+        def get(self, k, d=None): return self.x
+        def __contains__(self, k): return True
+
+    class _Arr:                          # the template: any attribute beyond these makes the trace fail
+        indexes = _Map(_Index())
+        sizes = _Map(n)
+        coords = _Map(_Index())
+        dims = ("time",)
+        def __getitem__(self, k): return _Index()
+        def get_index(self, k): return _Index()
+
+    fn = getattr(arrays, "get_coord_index", None)
+    # the range of an axis is (min, max): `lo ≤ hi` is a hypothesis of the tie
+    _sym_tie_hyp(ctx, "ext_get_coord_index_clamp", lambda: fn(_Arr(), "time", v, raise_error=False), V, "Rat",
+                 "(hr : lo ≤ hi)", "some (SE.Raster.clampIndexR lo hi v n sb)",
+                 "unfold ext_get_coord_index_clamp SE.Raster.clampIndexR\n  se_close")
+    _sym_tie_hyp(ctx, "ext_get_coord_index_raise", lambda: fn(_Arr(), "time", v), V, "Rat",
+                 "(hr : lo ≤ hi)", "SE.Raster.clampIndexRaise lo hi v sb",
+                 "unfold ext_get_coord_index_raise SE.Raster.clampIndexRaise\n  se_close")
+
+
+def _sym_tie_hyp(ctx, name, fn, variables, ret_type, hyps, model_term, tactic):
+    """ctx.sym_tie with hypotheses on the variables: trace, emit `def name`, register
+    `∀ vars, hyps → name vars = model_term`; a failing trace is a broken obligation, not a crash"""
+    from .. import symtrace as st
+    from ..leanio import InfraError
+    meta = {"op": "rasterize"}
+    try:
+        src, _tree, n = st.extract(name, fn, variables, ret_type, catch=(KeyError,))
+    except InfraError:
+        raise
+    except Exception as e:  # noqa: BLE001
+        ctx.symbolic_ties[name] = {"error": repr(e)[:300]}
+        ctx.pre_failed.append(name)
+        ctx.fail("obligation", name, detail=f"symbolic trace of the current source failed: {e!r}", extra=meta)
+        return
+    ctx.symbolic_ties[name] = {"paths": n}
+    args = " ".join(variables)
+    ctx.obligation(name, f"{src}\ntheorem {name}_tie ({args} : Rat) {hyps} : {name} {args} = {model_term} := by\n  {tactic}\n", meta)
 
 
 # ------------------------------------------------------------------ generators
@@ -280,13 +547,48 @@ def _box(rng, tpts, fpts):
     return {"type": "BoundingBox", "coordinates": [rat(a), rat(c), rat(b), rat(d)]}
 
 
+def _irregular(rng, n, kind):
+    """an increasing axis with unequal spacing (log-like frequency axes, resampled time axes)"""
+    x = rng.choice([0.0, 0.5, 3.0]) if kind == "time" else rng.choice([0.0, 100.0, 1000.0])
+    out = []
+    for _ in range(n):
+        out.append(x)
+        x += rng.choice([0.25, 0.5, 0.75, 1.0, 0.1, 1 / 3]) * (1 if kind == "time" else rng.choice([100, 250, 1000 / 3]))
+    return out
+
+
+def _value_pool(dtype, fill):
+    """values exactly representable in the dtype: integers, and quarters for the float dtypes"""
+    ints = [v for v in range(0, 9) if v != fill]
+    if dtype in ("float32", "float64"):
+        return ints + [rat(Fraction(k, 4)) for k in (1, 2, 3, 5, 10, -3) if Fraction(k, 4) != fill] + [-2]
+    return ints
+
+
+def _values_variant(rng, vals, inp):
+    """how the values travel: list / tuple / numpy scalars / one value / wrong length"""
+    mode = rng.random()
+    values = vals
+    if mode < 0.2:
+        values = vals[0] if vals else 1          # one value for all
+    elif mode < 0.3:
+        values = vals + [3] if rng.random() < 0.5 or not vals else vals[:-1]   # wrong length
+    inp["values"] = values
+    inp["values_tuple"] = rng.random() < 0.3
+    inp["values_np"] = rng.random() < 0.2
+
+
 def _raster_cases(ctx, per_shape):
     rng = ctx.rng
     for nt in range(1, 9):
         for nf in range(1, 9):
             for _ in range(per_shape):
-                spacing = rng.choice(["dyadic", "decimal"])
-                t, fr = _axis(rng, nt, "time", spacing), _axis(rng, nf, "frequency", spacing)
+                spacing = rng.choice(["dyadic", "decimal", "irregular"])
+                if spacing == "irregular":
+                    t, fr = _irregular(rng, nt, "time"), _irregular(rng, nf, "frequency")
+                else:
+                    t, fr = _axis(rng, nt, "time", spacing), _axis(rng, nf, "frequency", spacing)
+                ctx.tally("axis:" + spacing)
                 tp, fp = _positions(rng, t), _positions(rng, fr)
                 for time_first in (False, True):
                     k = rng.choice([0, 1, 1, 2, 3, 4])
@@ -295,16 +597,100 @@ def _raster_cases(ctx, per_shape):
                     dtype = rng.choice(DTYPES)
                     if dtype == "uint8":
                         fill = abs(fill)
-                    vals = [rng.choice([v for v in range(1, 9) if v != fill]) for _ in range(k)]
-                    mode = rng.random()
-                    values = vals
-                    if mode < 0.2:
-                        values = vals[0] if vals else 1          # one value for all
-                    elif mode < 0.3:
-                        values = vals + [3] if rng.random() < 0.5 or not vals else vals[:-1]   # wrong length
-                    yield {"time": rats(t), "freq": rats(fr), "time_first": time_first, "geoms": geoms, "values": values,
-                           "values_tuple": rng.random() < 0.3, "fill": fill, "dtype": dtype,
+                    if dtype in ("float32", "float64") and rng.random() < 0.2:
+                        fill = rat(rng.choice([Fraction(-1, 2), Fraction(1, 4), Fraction(5, 2)]))
+                    pool = _value_pool(dtype, fill)
+                    vals = [rng.choice(pool) for _ in range(k)]
+                    inp = {"time": rats(t), "freq": rats(fr), "time_first": time_first, "geoms": geoms,
+                           "fill": fill, "dtype": dtype, "dtype_as": rng.choice(["str", "str", "np", "type"]),
                            "all_touched": rng.random() < 0.5, "contents": rng.choice([0, 1, 2])}
+                    _values_variant(rng, vals, inp)
+                    yield inp
+
+
+ALL_TYPES = ["Polygon", "Polygon", "MultiPolygon", "BoundingBox", "BoundingBox", "TimeInterval", "LineString", "Point",
+             "Point", "TimeStamp", "MultiPoint", "MultiLineString"]
+
+
+def _snap(rng, g, tp, fp):
+    """move the vertices of a point / line geometry onto, next to and beyond the template's coordinates"""
+    ty = g["type"]
+    P = lambda: [rat(rng.choice(tp)), rat(rng.choice(fp))]
+    if ty == "Point":
+        return {"type": ty, "coordinates": P()}
+    if ty == "TimeStamp":
+        return {"type": ty, "coordinates": rat(rng.choice(tp))}
+    if ty == "MultiPoint":
+        return {"type": ty, "coordinates": [P() for _ in g["coordinates"]]}
+    if ty == "LineString":
+        pts = [P() for _ in g["coordinates"]]
+        if frac(pts[0][0]) > frac(pts[-1][0]):        # the validated form is ordered by time (LineString validator)
+            pts.reverse()
+        return {"type": ty, "coordinates": pts}
+    return g
+
+
+def _unclose(g):
+    cut = lambda ring: ring[:-1] if len(ring) >= 4 and ring[0] == ring[-1] else ring
+    if g["type"] == "Polygon":
+        return {"type": "Polygon", "coordinates": [cut(r) for r in g["coordinates"]]}
+    return {"type": "MultiPolygon", "coordinates": [[cut(r) for r in poly] for poly in g["coordinates"]]}
+
+
+def _general_cases(ctx, n):
+    """requests over all nine geometry types; keys left out of the request are left to rasterize's defaults"""
+    rng = ctx.rng
+    prev = None
+    for _ in range(n):
+        nt, nf = rng.randint(1, 8), rng.randint(1, 8)
+        spacing = rng.choice(["half", "decimal", "irregular"])
+        if spacing == "half":
+            t, fr = [i * 0.5 for i in range(nt)], [i * 1.0 for i in range(nf)]
+        elif spacing == "decimal":
+            t, fr = [0.25 + i * 0.1 for i in range(nt)], [0.5 + i * 0.3 for i in range(nf)]
+        else:
+            t = _irregular(rng, nt, "time")
+            fr = [x / 250 for x in _irregular(rng, nf, "frequency")]
+        ctx.tally("general-axis:" + spacing)
+        k = rng.choice([0, 1, 1, 2, 2, 3, 4])
+        if prev is not None and rng.random() < 0.15:
+            geoms = prev                          # the same geometries on another template (no state is carried over)
+            ctx.tally("general:geometries-reused")
+        else:
+            tp, fp = _positions(rng, t), _positions(rng, fr)
+            geoms = []
+            for _g in range(k):
+                g = gen_geom.gen_valid(rng, rng.choice(ALL_TYPES), tmax=max(t[-1] + 1, 1.5), fmax=max(fr[-1] + 1, 1.5), k=3)
+                if rng.random() < 0.4:
+                    g = _snap(rng, g, tp, fp)
+                elif g["type"] == "BoundingBox" and rng.random() < 0.5:
+                    g = _box(rng, tp, fp)
+                elif g["type"] in POLY_SHAPES and rng.random() < 0.3:
+                    g = _unclose(g)               # rings given without the closing vertex (shapely closes them)
+                    ctx.tally("general:unclosed-rings")
+                geoms.append(g)
+        prev = geoms
+        for g in geoms:
+            ctx.tally("general-geom:" + g["type"])
+        dtype = rng.choice([None, None] + DTYPES)
+        fill = rng.choice([None, None, 0, -1, 7, 1])
+        if dtype == "uint8" and fill is not None:
+            fill = abs(fill)
+        if dtype in (None, "float32", "float64") and rng.random() < 0.15:
+            fill = rat(rng.choice([Fraction(-1, 2), Fraction(1, 4), Fraction(5, 2)]))
+        pool = _value_pool(dtype or "float32", 0 if fill is None else fill)
+        vals = [rng.choice(pool) for _ in geoms]
+        inp = {"time": rats(t), "freq": rats(fr), "time_first": rng.random() < 0.5, "geoms": geoms, "fill": fill,
+               "dtype": dtype, "dtype_as": rng.choice(["str", "str", "np", "type"]),
+               "all_touched": rng.choice([None, False, True, True]), "contents": rng.choice([0, 1, 2]),
+               "extra_dim": rng.choice([None, None, None, 0, 1, 2]), "twice": rng.random() < 0.1}
+        _values_variant(rng, vals, inp)
+        if rng.random() < 0.2:
+            inp["values"] = None                  # default: the value 1 for every geometry
+        for key in ("values", "fill", "dtype", "all_touched"):
+            if inp[key] is None:
+                ctx.tally("general-default:" + key)
+        yield inp
 
 
 def _monitor_cases(ctx, n):
@@ -324,12 +710,18 @@ def _monitor_cases(ctx, n):
 
 def run(ctx):
     ctx.stage("corpus", ctx.run_corpus, OPS)
+    ctx.stage("tables", _tables, ctx)
+    ctx.stage("symbolic", _symbolic, ctx)
+    ctx.stage("discharge", ctx.discharge, ["SoundeventModel.Raster", "SoundeventModel.Tactics", "Proofs.C20"])
     ctx.stage("rasterio-box-rule", _rasterio_contract, ctx)
+    ctx.stage("rasterio-point-rule", _point_contract, ctx)
     ctx.stage("rasterize-exact", lambda: ctx.run_cases(OPS["rasterize"], _raster_cases(ctx, ctx.budget(6, 60))))
     ctx.exhaustive["rasterize"] = "every template shape 1-8 x 1-8, both dimension orders"
-    ctx.stage("polygon-monitor", lambda: ctx.run_cases(OPS["raster_monitor"], _monitor_cases(ctx, ctx.budget(250, 4000))))
+    ctx.stage("rasterize-all-types", lambda: ctx.run_cases(OPS["rasterize_all"], _general_cases(ctx, ctx.budget(900, 12000))))
+    ctx.stage("polygon-monitor", lambda: ctx.run_cases(OPS["raster_monitor"], _monitor_cases(ctx, ctx.budget(150, 3000))))
 
 
 def search(ctx, failures):
     ctx.run_cases(OPS["rasterize"], _raster_cases(ctx, 10))
+    ctx.run_cases(OPS["rasterize_all"], _general_cases(ctx, 1500))
     ctx.run_cases(OPS["raster_monitor"], _monitor_cases(ctx, 300))
